@@ -28,6 +28,15 @@ CHECKS = {
  "C11": dict(cat="model_checking", ref="7 C11", tech="TLA+ model of the Reassembler's atomic steps, all interleavings by TLC; every schedule replayed on the real code under a controlled scheduler with -race; free-running -race stress judged by the same TLA+ monitor",
              text="TLC enumerates every interleaving (at the grain of Put / CleanUp / closed-flag load / CAS / Clear, with optional re-entrant callbacks and callback-level scheduling points) of all programs of 1-2 operations for 2 goroutines and 1 operation for 3, and checks the C11 monitor; each schedule is then forced on the real Reassembler through the verif yield points under the race detector and its observation must equal the model's or is judged by the monitor; free-running rounds with concurrent closers, maintainers and re-entrant callbacks are judged on order-insensitive clauses with happens-before stamps.",
              note="Trusted: TLC, the controlled scheduler (gates at the three verifYield points and in the harness's own Stream), Go's race detector. The model assumes the mutex-protected sections are atomic; schedules inside those sections are not enumerated. Programs are short (<=2 operations per goroutine)."),
+ "C08": dict(cat="model_checking", ref="7 C08", tech="TLA+ model of the client and a scripted kernel checked by TLC against a monitor written from the statement; all bounded behaviours replayed through the real AuditClient over a simulated Netlink; TLC trace validation of random scripts",
+             text="TLC checks the AuditClient model (getReply with its 10-attempt loop, sequence-0 skipping, foreign-sequence rejection, ACK type and errno decoding, rule listing) against the C08 monitor for every pair/triple of operations over a script alphabet with every errno class, unsolicited events, EINTR runs up to 9, and adversarial ACKs (foreign sequence, wrong type, short, receive error, truncated datagram). Each behaviour is replayed through the real client with a simulated kernel behind the exported Netlink field (one shared receive buffer) and must equal the prediction or is judged on the real record; random scripts add random payloads, all setters, 0-9 transient failures and noise at every gap.",
+             note="Trusted: TLC, the simulated kernel and the harness's error classification (errors.Is / text containment / 'rule exists'). Verdicts are judged only on an in-step socket with no NoWait ACK outstanding; the real kernel is never contacted. MC depth: 2 operations with dump, 3-4 without."),
+ "C16": dict(cat="model_checking", ref="7 C16", tech="UAPI layout written in TLA+ (AuditWire), TLC judges every request the simulated kernel saw and every decoded status; exhaustive enumeration of setters x boundary values x modes and buffer lengths 0..80",
+             text="Every record of every replayed and random script is judged (no inheritance): a setter must send exactly one AUDIT_SET with REQUEST|ACK and a 44-byte audit_status whose words are all zero except mask = the UAPI bit and the value at the UAPI offset; GetStatus must send an empty AUDIT_GET and return exactly the words the kernel's reply covers (zero beyond). Exported constants are logged by name and compared with the UAPI numbers in AuditWire.tla; FromWireFormat is run on every length 0..80 with zero/0xFF/random contents into a pre-filled struct from a slice with a sentinel in its spare capacity.",
+             note="Trusted: AuditWire.tla's transcription of include/uapi/linux/audit.h and netlink.h, TLC, the harness's serialisation of the returned struct by field name. Little-endian host assumed (x86-64/arm64)."),
+ "C17": dict(cat="model_checking", ref="7 C17", tech="TLA+ model with pending-ACK list, closeOnce and PID-clear, TLC exhaustive to depth 6-7; all behaviours to depth 4-5 replayed on the real client; random NoWait/Wait/Close histories incl. concurrent Close judged by TLC",
+             text="The monitor keeps the scripted frames of every unconsumed NoWait request: WaitForPendingACKs must consume exactly the frames up to each ACK in order, stop at and return the first kernel error, and consume nothing already consumed; Close must call Netlink.Close exactly once over the client's life, preceded by exactly one AUDIT_SET{mask=PID,pid=0} iff SetPID was used, and later (or concurrent) Close calls must send and close nothing; slices returned by GetRules must read the same after later traffic through the shared buffer.",
+             note="Trusted: TLC, the simulated kernel's frame accounting (pops/left), the generator's guarantee that NoWait scripts put noise only before the ACK. Concurrent Close is run as real goroutines (2-4 callers), not enumerated."),
 }
 
 NOT_YET = {
@@ -57,7 +66,7 @@ def main():
         "hooks": {
             "guard": "verif (Go build tag)",
             "enable": "go build -tags verif (the harness module replaces github.com/elastic/go-libaudit/v2 with /repo)",
-            "baseline_off_cmd": "cd /repo && GOFLAGS=-mod=mod GOPROXY=off GOSUMDB=off GOTOOLCHAIN=local go test -json -vet=off -count=1 -timeout 25m ./...",
+            "baseline_off_cmd": "cd /repo && GOFLAGS=-mod=mod GOPROXY=off GOSUMDB=off GOTOOLCHAIN=local go test -json -vet=off -count=1 -timeout 25m ./...; rc=$?; /verif/tools/reset_audit.sh >/dev/null 2>&1; exit $rc",
             "source_commits": hooks_commits,
             "add_only": True,
         },
